@@ -77,6 +77,17 @@ def run_mc(pid, tier, out):
             out["violations"].append(("design-level: %s violated in family %s" % (v, fam), path))
         if r.get("states", 0) < 100:
             raise MachineryError("vacuous model-checking run (family %s: %s states)" % (fam, r.get("states")))
+    # design-level reproduction of the listed known findings (expected failures)
+    for kf in [k for k in core.known_findings() if k.get("kind") == "known" and k["property"] == pid]:
+        inv = {"C07": "I_C07_bounds", "C05": "I_C05_bound"}.get(pid)
+        if not inv:
+            continue
+        r = core.run_tlc("MC_Sim", mc_cfg("BX", [inv], []), heap="6g")
+        if core.tlc_failed(r["out"]):
+            raise MachineryError("TLC failed on MC_Sim family BX:\n" + r["out"][-3000:])
+        v = core.tlc_violation(r["out"])
+        samples.append({"mc_family": "BX (overlapping ingests, expected failure)", "known_finding": kf["id"],
+                        "invariant": inv, "reproduced_at_design_level": bool(v)})
     out["states"] += states
     out["transitions"] += trans
     out["samples"] += samples
@@ -144,31 +155,64 @@ def count_by(meta, key):
 
 
 def match_known(kfs, tr, clauses):
-    """a listed known finding explains these clause failures of this trace"""
+    """a listed known finding explains these clause failures of this trace;
+    the signature predicates are specific (a different violation of the same
+    property is still reported)"""
     for k in kfs:
         sig = k.get("signature", {})
         if "clauses" in sig and not set(clauses) <= set(sig["clauses"]):
             continue
-        if sig.get("requires") == "threshold_or_overlap" and not trace_crosses(tr):
+        req = sig.get("requires")
+        if req == "threshold_crossed_and_stranded" and not stranded_after_crossing(tr):
+            continue
+        if req == "overlap_overcommit" and not overlap_overcommit(tr):
             continue
         return k
     return None
 
 
-def trace_crosses(tr):
-    """the hot buffer exceeded its 60% tiering threshold, or two ingest
-    windows overlapped with a joint volume above the free hot space"""
-    cap = tr["cfg"]["hotCap"]
+def _states(tr):
     from harness import runsim
-    for st in runsim.delta_decode(tr["steps"]):
-        if (cap - st["buf"]["hotFree"]) * 10 > 6 * cap:
-            return True
-    return False
+    return runsim.delta_decode(tr["steps"])
+
+
+def stranded_after_crossing(tr):
+    """the hot buffer exceeded its 60% threshold, the run did not end within
+    its budget, and at the end an observation sits in the cold tier (or in a
+    transfer slot) with its workflow not processed"""
+    cap = tr["cfg"]["hotCap"]
+    e = tr["end"]
+    if e["completed"] or e["exc"]["type"] or not e["budget"]:
+        return False
+    if not any((cap - st["buf"]["hotFree"]) * 10 > 6 * cap for st in _states(tr)):
+        return False
+    b = e["st"]["buf"]
+    return bool(b["coldStored"] or b["coldTr"] or b["hotTr"])
+
+
+def overlap_overcommit(tr):
+    """free hot space below zero while two observations that were admitted
+    with overlapping ingest windows have a joint volume above the capacity"""
+    cfg = tr["cfg"]
+    cap = cfg["hotCap"]
+    K = cfg.get("K", 1)
+    last = tr["end"]["st"]
+    win = []
+    for o in last["obs"]:
+        c = next(x for x in cfg["obs"] if x["o"] == o["o"])
+        if o["ast"] >= 0:
+            win.append((o["ast"], o["ast"] + c["dur"] * K, c["rate"] * c["dur"]))
+    over = any(a[0] < b[1] and b[0] < a[1] and a[2] + b[2] > cap
+               for i, a in enumerate(win) for b in win[i + 1:])
+    return over and any(st["buf"]["hotFree"] < 0 for st in _states(tr))
 
 
 def finish(pid, tier, out, cov, wall, note, drift=()):
+    seen = {}
     for kf, where in out["known"]:
-        print("KNOWN-FINDING: property=%s %s [%s]" % (pid, kf["what"], kf["id"]))
+        seen.setdefault(kf["id"], [kf, 0])[1] += 1
+    for kid, (kf, n) in sorted(seen.items()):
+        print("KNOWN-FINDING: property=%s %s [%s, reproduced %d time(s) in this run]" % (pid, kf["what"], kid, n))
     if drift:
         d0 = drift[0]
         print("DRIFT: %d logged events are not steps of the specification (no property clause failed on them); first: %s"
